@@ -203,7 +203,7 @@ func (e *c02Env) tokNew(label, pols string, numUses int, kind string) {
 	if numUses > 0 {
 		data["num_uses"] = numUses
 	}
-	if e.nextShort && kind == "service" {
+	if e.nextShort && (kind == "service" || kind == "batch") {
 		data["ttl"] = "2s"
 	}
 	path := "auth/token/create"
@@ -237,7 +237,7 @@ func (e *c02Env) tokNew(label, pols string, numUses int, kind string) {
 		e.t.Fatalf("token %s: policies %v, wanted %v", label, got, want)
 	}
 	e.toks[label] = &c02Tok{label: label, client: resp.Auth.ClientToken, kind: kind}
-	if e.nextShort && kind == "service" {
+	if e.nextShort && (kind == "service" || kind == "batch") {
 		e.short[label] = time.Now()
 		e.nextShort = false
 	}
@@ -610,6 +610,45 @@ func c02Case(t *testing.T, out *vh.Out, rng *vh.Rand, ci, nops int) {
 		e.tokExpire(l)
 		e.req("valid:"+l, "read", e.mounts[0]+"data/a", "10.1.2.3")
 		e.req("valid:"+l, "read", e.mounts[0]+"unauth/x", "10.1.2.3")
+	}
+	if (!vh.Thorough() && ci == 1) || (vh.Thorough() && ci%200 == 1) {
+		// batch tokens (no storage entry, no lease): (a) real expiry — the TTL inside the token is all that ends it;
+		// (b) a batch token lives only as long as its PARENT: created by a service token that is then revoked
+		e.polPut("p1", e.mounts[0]+"*=read+update+delete+list")
+		e.ntok++
+		l := fmt.Sprintf("t%d", e.ntok)
+		e.nextShort = true
+		e.tokNew(l, "p1", 0, "batch")
+		e.req("valid:"+l, "read", e.mounts[0]+"data/a", "10.1.2.3")
+		e.tokExpire(l)
+		e.req("valid:"+l, "read", e.mounts[0]+"data/a", "10.1.2.3")
+		e.req("valid:"+l, "update", e.mounts[0]+"data/b", "10.1.2.3")
+		// (b)
+		e.polPut("pc", "auth/token/create=update;"+e.mounts[0]+"*=read+update")
+		e.ntok++
+		par := fmt.Sprintf("t%d", e.ntok)
+		e.tokNew(par, "pc", 0, "service")
+		e.ntok++
+		ch := fmt.Sprintf("t%d", e.ntok)
+		creq := &logical.Request{Operation: logical.UpdateOperation, Path: "auth/token/create", ClientToken: e.toks[par].client,
+			Data:       map[string]any{"type": "batch", "ttl": "1h", "policies": []string{"pc"}, "no_default_policy": true},
+			Connection: &logical.Connection{RemoteAddr: "127.0.0.1"}}
+		cresp, cerr := e.c.HandleRequest(vhRootCtx(), creq)
+		if cerr != nil || cresp == nil || cresp.Auth == nil {
+			e.t.Fatalf("batch child of %s: %v %v", par, cerr, cresp)
+		}
+		e.toks[ch] = &c02Tok{label: ch, client: cresp.Auth.ClientToken, kind: "batch"}
+		e.order = append(e.order, ch)
+		e.tokPols[ch] = []string{"pc"}
+		e.out.Op("ok", "tok-new", ch, "pc", "0", "batch")
+		e.req("valid:"+ch, "read", e.mounts[0]+"data/a", "10.1.2.3")
+		e.tokRevoke(par)
+		// the batch child is no longer a live token: recorded for the model as its revocation
+		e.dead[ch] = true
+		e.out.Op("ok", "tok-revoke", ch)
+		e.req("valid:"+ch, "read", e.mounts[0]+"data/a", "10.1.2.3")
+		e.req("valid:"+ch, "update", e.mounts[0]+"data/b", "10.1.2.3")
+		e.req("valid:"+par, "read", e.mounts[0]+"data/a", "10.1.2.3")
 	}
 	newTok()
 	newTok()
